@@ -204,8 +204,9 @@ Definition add_spending (st : S) (d : Z) : S := upd_u st (fun u => u_set_send u 
 Definition add_idler (st : S) (d : Z) : S := upd_u st (fun u => u_set_recv u (u_idler u + d) (u_pending u) (u_qsem u)).
 Definition add_pending (st : S) (d : Z) : S := upd_u st (fun u => u_set_recv u (u_idler u) (u_pending u + d) (u_qsem u)).
 
-(* the `while (!push_fn(x))` loop of push_backoff<PhotonPause> (h 664-676) *)
-Definition send_loop (st : S) (x : item) (yt texp : Z) : S * mres :=
+(* the `while (!push_fn(x))` loop of push_backoff<PhotonPause> (h 664-676); a wait that finds the count
+   available returns without a context switch and the loop goes round again (fuel = count + 2) *)
+Fixpoint send_loop_f (fuel : nat) (st : S) (x : item) (yt texp : Z) : S * mres :=
   match try_push st x with
   | Some st1 => (send_notify (add_swaiters st1 (-1)), MDone)
   | None =>
@@ -213,11 +214,16 @@ Definition send_loop (st : S) (x : item) (yt texp : Z) : S * mres :=
       else
         let exp := timeout_of (s_now st) SEM_WAIT_US in
         match sem_enter st SS with
-        | (st1, SemDone _ _) => (* count available: r == 0 *)
-            (add_spending st1 (-1), MYield [3])         (* not reachable in practice; handled as a re-entry *)
+        | (st1, SemDone _ _) =>
+            match fuel with
+            | O => (set_stuck st1, MDone)
+            | Datatypes.S f => send_loop_f f (add_spending st1 (-1)) x QUEUE_YIELD_COUNT (sat_add (s_now st1) QUEUE_YIELD_US)
+            end
         | (st1, SemBlock) => (st1, MSleep exp qid_ssem [2; exp])
         end
   end.
+Definition send_loop (st : S) (x : item) (yt texp : Z) : S * mres :=
+  send_loop_f (Datatypes.S (Datatypes.S (Z.to_nat (u_ssem (usr st))))) st x yt texp.
 (* send<PhotonPause>(x): returns MDone when x is pushed and the consumer side notified *)
 Definition send_m (st : S) (t : tid) (x : item) (k : kont) : S * mres :=
   match k with
@@ -234,7 +240,6 @@ Definition send_m (st : S) (t : tid) (x : item) (k : kont) : S * mres :=
           send_loop st2 x QUEUE_YIELD_COUNT (sat_add (s_now st2) QUEUE_YIELD_US)
       | (st1, SemBlock) => (st1, MSleep exp qid_ssem [2; exp])
       end
-  | [3] => send_loop st x QUEUE_YIELD_COUNT (sat_add (s_now st) QUEUE_YIELD_US)
   | _ => (st, MDone)
   end.
 
@@ -244,8 +249,9 @@ Definition try_pop (st : S) : option (S * item) :=
   | x :: r => Some (upd_u st (fun u => u_set_q u r (u_pushes u)), x)
   | [] => None
   end.
-(* the `while (!queue->pop(x))` loop of recv (h 914-930) *)
-Definition recv_loop (st : S) (yc turn texp : Z) : S * rres :=
+(* the `while (!queue->pop(x))` loop of recv (h 914-930); as for send, a wait that finds the count available
+   does not switch *)
+Fixpoint recv_loop_f (fuel : nat) (st : S) (yc turn texp : Z) : S * rres :=
   match try_pop st with
   | Some (st1, x) => (add_idler (notify_senders st1) (-1), RDone x)
   | None =>
@@ -253,10 +259,16 @@ Definition recv_loop (st : S) (yc turn texp : Z) : S * rres :=
       else
         let exp := timeout_of (s_now st) SEM_WAIT_US in
         match sem_enter st SQ with
-        | (st1, SemDone _ _) => (add_pending st1 (-1), RYield [4; yc])
+        | (st1, SemDone _ _) =>
+            match fuel with
+            | O => (set_stuck st1, RDone IStop)
+            | Datatypes.S f => recv_loop_f f (add_pending st1 (-1)) yc yc (sat_add (s_now st1) QUEUE_YIELD_US)
+            end
         | (st1, SemBlock) => (st1, RSleep exp qid_qsem [3; yc; exp])
         end
   end.
+Definition recv_loop (st : S) (yc turn texp : Z) : S * rres :=
+  recv_loop_f (Datatypes.S (Datatypes.S (Z.to_nat (u_qsem (usr st))))) st yc turn texp.
 Definition recv_m (st : S) (t : tid) (yc : Z) (k : kont) : S * rres :=
   match k with
   | [] =>
@@ -273,7 +285,6 @@ Definition recv_m (st : S) (t : tid) (yc : Z) (k : kont) : S * rres :=
           recv_loop st2 yc' yc' (sat_add (s_now st2) QUEUE_YIELD_US)
       | (st1, SemBlock) => (st1, RSleep exp qid_qsem [3; yc'; exp])
       end
-  | [4; yc'] => recv_loop st yc' yc' (sat_add (s_now st) QUEUE_YIELD_US)
   | _ => (st, RDone IStop)
   end.
 
